@@ -132,6 +132,30 @@ func runKeys(c *KCase) (classes []string, err error) {
 				return fmt.Errorf("%s.Successor(%q) = %q violates succ >= a", name, a, suc)
 			}
 		}
+		if cmp == comparer.DefaultComparer {
+			// the documented contract is "appends a sequence of bytes x to dst": with a non-empty
+			// dst the caller's bytes stay and the appended part obeys the law (judged for the
+			// repository's own comparer; composed comparers pass their prefix this way)
+			pfx := []byte("dst-prefix\xff")
+			dst := append(make([]byte, 0, 96), pfx...)
+			if sep := cmp.Separator(dst, a, b); sep != nil {
+				if !bytes.HasPrefix(sep, pfx) {
+					return fmt.Errorf("%s.Separator(dst=%q, %q, %q) = %q does not keep the caller's dst bytes", name, pfx, a, b, sep)
+				}
+				if x := sep[len(pfx):]; cmp.Compare(a, x) > 0 || cmp.Compare(x, b) >= 0 {
+					return fmt.Errorf("%s.Separator(dst=%q, %q, %q) appended %q, which violates a <= x < b", name, pfx, a, b, x)
+				}
+			}
+			dst = append(make([]byte, 0, 96), pfx...)
+			if suc := cmp.Successor(dst, b); suc != nil {
+				if !bytes.HasPrefix(suc, pfx) {
+					return fmt.Errorf("%s.Successor(dst=%q, %q) = %q does not keep the caller's dst bytes", name, pfx, b, suc)
+				}
+				if x := suc[len(pfx):]; cmp.Compare(x, b) < 0 {
+					return fmt.Errorf("%s.Successor(dst=%q, %q) appended %q, which violates x >= b", name, pfx, b, x)
+				}
+			}
+		}
 		return nil
 	}
 	for i := 0; i < 3; i++ {
